@@ -436,17 +436,18 @@ def convert_file_to_utf8(
 
 
 def _is_stateful_encoding(encoding) -> bool:
-    """Tell whether an encoding switches character sets with escape sequences.
+    """Tell whether decoding depends on what came earlier in the stream.
 
     ISO-2022-*, HZ and UTF-7 text cannot be decoded from the middle of a stream
-    without the state the decoder was in at that point.
+    without the state the decoder was in at that point, and the generic
+    UTF-16 / UTF-32 codecs take their byte order from the BOM at the start.
     """
 
     try:
         name = codecs.lookup(encoding or "").name
     except LookupError:
         return False
-    return name.startswith("iso2022") or name in ("hz", "utf-7")
+    return name.startswith("iso2022") or name in ("hz", "utf-7", "utf-16", "utf-32")
 
 
 def convert_file_prefix_to_utf8(
